@@ -35,7 +35,13 @@ class FileManager:
             if in_note and line.strip() == "":
                 in_note = False
                 start_idx = i
-        end_idx = start_idx + 1
+        if zlines[start_idx].strip() == "":
+            # Replace the blank line we settled on with the new note.
+            end_idx = start_idx + 1
+        else:
+            # No blank line to replace (the page's last line is not empty,
+            # e.g. a section header without a trailing newline), so append.
+            start_idx = end_idx = len(zlines)
         new_zlines = (
             zlines[:start_idx]
             + note.to_string().split("\n")
